@@ -377,6 +377,16 @@ inline void type_claim(bool holds, std::string const &key, char const *what)
   if (!holds && seen.insert(key).second)
     vf::violation(key + "/type-identity", "mismatch", what);
 }
+// d.distribution() == sd when the wrapped distribution has the documented type; a different type is reported by
+// type_claim at run time (comparing the two would not even compile, and the harness has to build on a broken tree)
+template <class A, class B>
+bool same_distribution(A const &a, B const &b)
+{
+  if constexpr (std::is_same_v<A, B>)
+    return a == b;
+  else
+    return false;
+}
 template <class RT, class E>
 void int_case(char const *family, i128 a, i128 b, std::uint64_t seed, unsigned n, unsigned ctor)
 {
@@ -404,7 +414,7 @@ void int_case(char const *family, i128 a, i128 b, std::uint64_t seed, unsigned n
     // parameter translation: the wrapped distribution was given exactly [a,b]
     VF_COUNT("parameters/uniform_int-compared");
     if (static_cast<i128>(d.distribution().a()) != a || static_cast<i128>(d.distribution().b()) != b ||
-        !(d.distribution() == sd))
+        !same_distribution(d.distribution(), sd))
       vf::violation(key + "/parameters", "mismatch",
                     "wrapped distribution has [" + s128(d.distribution().a()) + "," + s128(d.distribution().b()) +
                         "], requested [" + s128(a) + "," + s128(b) + "]");
@@ -1018,7 +1028,7 @@ void fp_entry()
         else
           ok = same_fp(d.distribution().a(), p1) && same_fp(d.distribution().b(), p2);
         VF_COUNT("parameters/floating-point-compared");
-        if (!ok || !(d.distribution() == sd))
+        if (!ok || !same_distribution(d.distribution(), sd))
           vf::violation(key + "/parameters", "mismatch", "the wrapped distribution does not carry the requested parameters");
       };
       long mism = -1;
